@@ -10,7 +10,10 @@ package zzverif
 
 import (
 	. "github.com/pbenner/autodiff"
+	"github.com/pbenner/autodiff/algorithm/eigensystem"
 	"github.com/pbenner/autodiff/algorithm/givensRotation"
+	"github.com/pbenner/autodiff/algorithm/qrAlgorithm"
+	"github.com/pbenner/autodiff/algorithm/svd"
 )
 
 func verif_C20_givens(kind int) {
@@ -33,6 +36,72 @@ func verif_C20_givens(kind int) {
 	VerifReach("C20-givens")
 }
 
+// Termination on structured rank-deficient input: the convergence loops of the
+// SVD and of the (symmetric) QR algorithm have no iteration cap. The run that
+// the followed inputs take (symbolic values at the non-zero positions of the
+// pattern) must return within the executor's step bound; the native replay of
+// a reported input confirms by timing out.
+// pattern: 0 zero matrix, 1 zero first column, 2 zero last row, 3 rank one
+// (outer product), 4 strictly upper triangular (nilpotent), 5 diagonal with a
+// zero entry, 6 full
+func verif_C20_terminates(alg, pattern, n int) {
+	a := NullDenseMatrix(Float64Type, n, n)
+	u := make([]float64, n)
+	for i := range u {
+		u[i] = VerifFinite64("u")
+	}
+	for i := 0; i < n; i++ {
+		for j := 0; j < n; j++ {
+			x := 0.0
+			switch pattern {
+			case 1:
+				if j > 0 {
+					x = VerifFinite64("a")
+				}
+			case 2:
+				if i < n-1 {
+					x = VerifFinite64("a")
+				}
+			case 3:
+				x = u[i] * u[j]
+			case 4:
+				if j > i {
+					x = VerifFinite64("a")
+				}
+			case 5:
+				if i == j && i != 1 {
+					x = VerifFinite64("a")
+				}
+			case 6:
+				x = VerifFinite64("a")
+			}
+			a.At(i, j).SetFloat64(x)
+		}
+	}
+	if alg == 1 || alg == 2 {
+		// symmetric input for the symmetric routines
+		for i := 0; i < n; i++ {
+			for j := 0; j < i; j++ {
+				a.At(i, j).SetFloat64(a.Float64At(j, i))
+			}
+		}
+	}
+	VerifPanics(func() {
+		switch alg {
+		case 0:
+			svd.Run(a)
+		case 1:
+			qrAlgorithm.Run(a, qrAlgorithm.Symmetric{true})
+		case 2:
+			eigensystem.Run(a, eigensystem.Symmetric{true})
+		case 3:
+			qrAlgorithm.Run(a)
+		}
+	})
+	VerifReach("C20-terminates")
+}
+
 func init() {
+	VerifRegister("verif_C20_terminates", func(a []int) { verif_C20_terminates(a[0], a[1], a[2]) })
 	VerifRegister("verif_C20_givens", func(a []int) { verif_C20_givens(a[0]) })
 }
